@@ -11,7 +11,9 @@ RULE = ("random images (8-bit and float), synthetic tissues placed inside the im
         "'average'}, interface lists with repeated interfaces; non-trivial = at least 3 interfaces; distinct = (tissue, image, options)")
 TRUSTED = ["Model/Myosin.v (layer_elements, median, non_integrated, integrated over distinct pixels, 'average' normalisation) tied to "
            "myosin.get_intensities by exact rational correspondence on integer-valued images; PIL getpixel (truncation of float "
-           "coordinates toward zero) and scipy interp1d are oracles"]
+           "coordinates toward zero) is an oracle",
+           "Model/Band.v tied exactly to the pixel set myosin.get_interpolation returns: scipy's interp1d on integer arrays delegates to numpy.interp, whose "
+           "binary64 formula slope * (x - x_lo) + y_lo with exact end values the model copies; the ceiled vertices are computed by the harness with the source's expression"]
 ASSUMPTIONS = ["tolerance 1e-12 where a mean or a polyline length (sqrt) is taken"]
 TESTED_NOT_PROVED = ["the polyline length as divisor (sqrt) and PIL's pixel access are evaluated by the oracle; linearity / homogeneity in the image and "
                      "the uniform-image clause are proved for the model (C17_integrated_scale/_add, C17_non_integrated_scale/_uniform) and re-checked "
